@@ -102,3 +102,52 @@ Print Assumptions C17_dangling_reference_refused_unused_one_unnoticed.
 Theorem C17_segment_ids_are_local_to_their_route : stmt_resolve_segment_ids_local.
 Proof. exact resolve_segment_ids_local. Qed.
 Print Assumptions C17_segment_ids_are_local_to_their_route.
+
+(** The calendar layer (Cal.v = rapid_time as the loader uses it): departure and arrival times enter the network through
+    DateTime::new and are compared by the derived order of (days, seconds).  The model's linear seconds are a sound reading
+    of that exactly on NORMALISED points; DateTime::new does not normalise (hour 24, seconds above 59), which was a genuine
+    defect of the loader ("…T24:00:00" compared as earlier than the same instant written "…T00:00:00" of the next day: an
+    arrival at midnight could not reach a departure at 24:00:00), repaired by reading every time as `new(s) + ZERO`. *)
+From RS Require Import Cal CalStmts CalFacts.
+Theorem C17_day_numbers_invert_dates : stmt_ymd_roundtrip.
+Proof. exact ymd_roundtrip. Qed.
+Print Assumptions C17_day_numbers_invert_dates.
+Theorem C17_dates_invert_day_numbers : stmt_days_roundtrip.
+Proof. exact days_roundtrip. Qed.
+Print Assumptions C17_dates_invert_day_numbers.
+Theorem C17_day_numbers_are_chronological : stmt_ymd_monotone.
+Proof. exact ymd_monotone. Qed.
+Print Assumptions C17_day_numbers_are_chronological.
+Theorem C17_arrival_is_departure_plus_duration : stmt_tp_add_lin.
+Proof. exact tp_add_lin. Qed.
+Print Assumptions C17_arrival_is_departure_plus_duration.
+Theorem C17_derived_order_is_chronological_on_normalised_points : stmt_tp_cmp_lin.
+Proof. exact tp_cmp_lin. Qed.
+Print Assumptions C17_derived_order_is_chronological_on_normalised_points.
+Theorem C17_derived_order_not_chronological_otherwise : stmt_tp_cmp_lin_refuted.
+Proof. exact tp_cmp_lin_refuted. Qed.
+Print Assumptions C17_derived_order_not_chronological_otherwise.
+Theorem C17_strict_clock_times_parse_normalised : stmt_parse_norm.
+Proof. exact parse_norm. Qed.
+Print Assumptions C17_strict_clock_times_parse_normalised.
+Theorem C17_hour_24_parses_unnormalised_prefix_defect : stmt_parse_norm_refuted.
+Proof. exact parse_norm_refuted. Qed.
+Print Assumptions C17_hour_24_parses_unnormalised_prefix_defect.
+Theorem C17_repaired_loader_times_are_ordered_chronologically : stmt_load_time_order.
+Proof. exact load_time_order. Qed.
+Print Assumptions C17_repaired_loader_times_are_ordered_chronologically.
+Theorem C17_repaired_loader_keeps_the_instant : stmt_load_time_instant.
+Proof. exact load_time_instant. Qed.
+Print Assumptions C17_repaired_loader_keeps_the_instant.
+Theorem C17_linear_time_abstracts_add : stmt_abs_add.
+Proof. exact abs_add. Qed.
+Print Assumptions C17_linear_time_abstracts_add.
+Theorem C17_linear_time_abstracts_order : stmt_abs_cmp.
+Proof. exact abs_cmp. Qed.
+Print Assumptions C17_linear_time_abstracts_order.
+Theorem C17_linear_time_abstracts_difference : stmt_abs_diff_dt.
+Proof. exact abs_diff_dt. Qed.
+Print Assumptions C17_linear_time_abstracts_difference.
+Theorem C17_difference_asserts_wrongly_otherwise : stmt_abs_diff_dt_refuted.
+Proof. exact abs_diff_dt_refuted. Qed.
+Print Assumptions C17_difference_asserts_wrongly_otherwise.
